@@ -1,7 +1,8 @@
 // C06 correspondence harness: the real TopNCollector over synthetic match streams (collector
 // level) and Index.Search paging with From/Size/SearchAfter/SearchBefore on small real indexes
-// (API level, scorch in-memory and upsidedown). The expected pages are computed by the Coq model
-// and spec (Collect/TopN.v, Collect/TopNCorr.v), never here.
+// (API level, scorch in-memory and upsidedown), and complete SearchAfter / SearchBefore walks over a plain
+// index or an IndexAlias tree over several member indexes (walk level). The expected pages are computed
+// by the Coq model and spec (Collect/TopN.v, Collect/TopNAliasModel.v, Collect/TopNCorr.v), never here.
 package main
 
 import (
@@ -78,6 +79,13 @@ type In struct {
 	// MissingAnchors: only probe SearchAfter/SearchBefore from hits whose typed (number) sort
 	// value is missing, sending back their DecodedSort as the documentation says
 	MissingAnchors bool `json:"missing_anchors,omitempty"`
+	// walk: complete forward (SearchAfter) and backward (SearchBefore) walks plus From/Size tilings, for
+	// each of Sizes, over one index (Tree "single") or an IndexAlias tree over Leaves member indexes
+	Leaves  int      `json:"leaves,omitempty"`
+	Part    []int    `json:"part,omitempty"`    // doc index -> leaf
+	Engines []string `json:"engines,omitempty"` // per leaf
+	Tree    string   `json:"tree,omitempty"`    // single | alias1 | flat | left | pairs | deep
+	Sizes   []int    `json:"sizes,omitempty"`
 }
 
 // ---------------------------------------------------------------- Coq printing
@@ -451,6 +459,71 @@ func genAPIMissing(r *vrand.R, k int) In {
 	return in
 }
 
+// genWalk: the documents of an API case spread over 1-4 member indexes under an alias tree (or one
+// plain index), and the page sizes to walk with: always some of 1, 2 and a size that does not divide
+// the number of documents
+func genWalk(r *vrand.R, k int) In {
+	in := genAPI(r, k)
+	in.Kind = "walk"
+	in.MissingAnchors = false
+	if len(in.Docs) < 6 || r.Chance(1, 2) {
+		// enough documents for several pages at every size
+		for i := len(in.Docs); i < 12+k%17; i++ {
+			d := Doc{ID: fmt.Sprintf("d%03d", i), T: vrand.Pick(r, []string{"x", "x", "x y", "y y x", "x x y"})}
+			for j := vrand.Pick(r, []int{1, 1, 0, 2, 3}); j > 0; j-- {
+				d.N = append(d.N, float64(r.Range(-6, 6))/float64(vrand.Pick(r, []int{1, 2})))
+			}
+			for j := vrand.Pick(r, []int{1, 1, 0, 2}); j > 0; j-- {
+				d.S = append(d.S, vrand.Pick(r, []string{"a", "ab", "b", "ba", "c", "zz", "m"}))
+			}
+			in.Docs = append(in.Docs, d)
+		}
+	}
+	nd := len(in.Docs)
+	switch k % 6 {
+	case 0:
+		in.Leaves, in.Tree = 1, "single"
+	case 1:
+		in.Leaves, in.Tree = 2, "flat"
+	case 2:
+		in.Leaves, in.Tree = r.Range(3, 4), "flat"
+	case 3:
+		in.Leaves, in.Tree = r.Range(3, 4), vrand.Pick(r, []string{"left", "deep"})
+	case 4:
+		in.Leaves, in.Tree = 4, "pairs"
+	default:
+		in.Leaves, in.Tree = vrand.Pick(r, []int{1, 2, 2, 3}), "flat"
+		if in.Leaves == 1 {
+			in.Tree = "alias1"
+		}
+	}
+	in.Engines = make([]string, in.Leaves)
+	for i := range in.Engines {
+		in.Engines[i] = vrand.Pick(r, []string{"scorch", "scorch", "upsidedown"})
+	}
+	in.Part = make([]int, nd)
+	skew := r.Chance(1, 4) // most documents in one member, the others nearly empty
+	for i := range in.Part {
+		if skew && r.Chance(4, 5) {
+			in.Part[i] = 0
+		} else {
+			in.Part[i] = r.Intn(in.Leaves)
+		}
+	}
+	in.Sizes = []int{vrand.Pick(r, []int{1, 2}), vrand.Pick(r, []int{2, 3, 4, 5, 7})}
+	// a size that does not divide the number of documents, and the heap store (size > 10) now and then
+	for _, c := range []int{3, 4, 5, 6, 7, 11} {
+		if nd%c != 0 && c != in.Sizes[1] && r.Chance(1, 2) {
+			in.Sizes = append(in.Sizes, c)
+			break
+		}
+	}
+	if r.Chance(1, 5) {
+		in.Sizes = append(in.Sizes, vrand.Pick(r, []int{11, 12, 13}))
+	}
+	return in
+}
+
 func gen(f vh.Flags, r *vrand.R, emit func(In)) {
 	nc := f.N(1500, 45000)
 	for k := 0; k < nc; k++ {
@@ -505,6 +578,9 @@ func gen(f vh.Flags, r *vrand.R, emit func(In)) {
 	}
 	for k := 0; k < f.N(10, 300); k++ {
 		emit(genAPIMissing(r, k))
+	}
+	for k := 0; k < f.N(72, 2400); k++ {
+		emit(genWalk(r, k))
 	}
 }
 
@@ -895,12 +971,275 @@ func execAPI(in In) vh.Result {
 	}
 }
 
+// ---------------------------------------------------------------- complete walks, plain index or alias tree
+
+func execWalk(in In) vh.Result {
+	nl := in.Leaves
+	if nl < 1 {
+		nl = 1
+	}
+	leaves := make([]bleve.Index, nl)
+	for i := range leaves {
+		eng := "scorch"
+		if i < len(in.Engines) {
+			eng = in.Engines[i]
+		}
+		idx, err := newIndex(eng)
+		if err != nil {
+			return vh.Result{Direct: &vh.Direct{Kind: "error", Detail: err.Error()}}
+		}
+		defer idx.Close()
+		leaves[i] = idx
+	}
+	leafOf := func(i int) int {
+		if i < len(in.Part) && in.Part[i] >= 0 && in.Part[i] < nl {
+			return in.Part[i]
+		}
+		return 0
+	}
+	bs := in.Batch
+	if bs < 1 {
+		bs = 1
+	}
+	batches := make([]*bleve.Batch, nl)
+	for l := range batches {
+		batches[l] = leaves[l].NewBatch()
+	}
+	for i, d := range in.Docs {
+		l := leafOf(i)
+		_ = batches[l].Index(d.ID, docBody(d))
+		if batches[l].Size() >= bs {
+			_ = leaves[l].Batch(batches[l])
+			batches[l] = leaves[l].NewBatch()
+		}
+	}
+	for l := range batches {
+		_ = leaves[l].Batch(batches[l])
+	}
+	for _, i := range in.Deletes {
+		if i < len(in.Docs) {
+			_ = leaves[leafOf(i)].Delete(in.Docs[i].ID)
+		}
+	}
+	for _, i := range in.Redo {
+		if i < len(in.Docs) {
+			_ = leaves[leafOf(i)].Index(in.Docs[i].ID, docBody(in.Docs[i]))
+		}
+	}
+	// the searched object
+	var top bleve.Index
+	al := func(xs ...bleve.Index) bleve.Index { return bleve.NewIndexAlias(xs...) }
+	switch {
+	case in.Tree == "single" || nl == 1 && in.Tree != "alias1":
+		top = leaves[0]
+	case in.Tree == "alias1":
+		top = al(leaves[0])
+	case in.Tree == "left" && nl >= 3: // ((l0 l1) l2 ...)
+		top = al(append([]bleve.Index{al(leaves[0], leaves[1])}, leaves[2:]...)...)
+	case in.Tree == "pairs" && nl >= 4: // ((l0 l1) (l2 l3 ...))
+		top = al(al(leaves[0], leaves[1]), al(leaves[2:]...))
+	case in.Tree == "deep" && nl >= 3: // (((l0 l1) l2) l3)
+		t := al(leaves[0], leaves[1])
+		for _, l := range leaves[2:] {
+			t = al(t, l)
+		}
+		top = t
+	default:
+		top = al(leaves...)
+	}
+	isAlias := top != leaves[0]
+
+	mkQuery := func() query.Query {
+		switch in.Query {
+		case "x":
+			q := bleve.NewMatchQuery("x")
+			q.SetField("t")
+			return q
+		case "xy":
+			q := bleve.NewMatchQuery("x y")
+			q.SetField("t")
+			return q
+		}
+		return bleve.NewMatchAllQuery()
+	}
+	var direct *vh.Direct
+	run := func(on bleve.Index, size, from int, after, before []string) *obs {
+		req := bleve.NewSearchRequestOptions(mkQuery(), size, from, false)
+		req.SortByCustom(mkSort(in.Sort)) // fresh sort objects: Search mutates them
+		if after != nil {
+			req.SetSearchAfter(after)
+		}
+		if before != nil {
+			req.SetSearchBefore(before)
+		}
+		var res *bleve.SearchResult
+		var serr error
+		if d := vh.Guard(30*time.Second, "Index.Search", func() { res, serr = on.Search(req) }); d != nil {
+			direct = d
+			return nil
+		}
+		if serr != nil {
+			direct = &vh.Direct{Kind: "error", Detail: fmt.Sprintf("Search(size=%d from=%d after=%q before=%q): %v", size, from, after, before, serr)}
+			return nil
+		}
+		if res.Status != nil && res.Status.Failed > 0 {
+			direct = &vh.Direct{Kind: "error", Detail: fmt.Sprintf("Search(size=%d from=%d after=%q before=%q): %d member(s) failed: %v", size, from, after, before, res.Status.Failed, res.Status.Errors)}
+			return nil
+		}
+		return &obs{res.Hits, res.Total, res.MaxScore}
+	}
+	all := len(in.Docs) + 5
+	p := newPool()
+	amatchT := func(h *search.DocumentMatch) cf.T {
+		return cf.App("Build_amatch", p.hx(h.HitNumber), p.bzs(h.ID), p.hx(math.Float64bits(h.Score)),
+			lst("bytes", h.Sort, p.bzs))
+	}
+	// every member's own complete listing, in its HitNumber order: the match streams
+	var childT []cf.T
+	for _, leaf := range leaves {
+		o := run(leaf, all, 0, nil, nil)
+		if o == nil {
+			return vh.Result{Direct: direct}
+		}
+		for _, h := range o.hits {
+			if math.IsNaN(h.Score) || h.Score < 0 || math.Signbit(h.Score) {
+				return vh.Result{Skip: true}
+			}
+		}
+		arrival := append(search.DocumentMatchCollection{}, o.hits...)
+		sort.SliceStable(arrival, func(a, b int) bool { return arrival[a].HitNumber < arrival[b].HitNumber })
+		childT = append(childT, lst("amatch", arrival, amatchT))
+	}
+	// the searched object's complete listing: positions of the anchors
+	full := run(top, all, 0, nil, nil)
+	if full == nil {
+		return vh.Result{Direct: direct}
+	}
+	n := len(full.hits)
+	pos := map[string]int{}
+	for i, h := range full.hits {
+		pos[h.ID] = i
+	}
+	anchor := func(h *search.DocumentMatch) ([]string, cf.T) {
+		args := make([]string, len(in.Sort))
+		keys := make([]cf.T, len(in.Sort))
+		var sc uint64
+		for x, s := range in.Sort {
+			keys[x] = p.bzs(h.Sort[x])
+			switch {
+			case s.Kind == "score":
+				args[x] = strconv.FormatFloat(h.Score, 'g', -1, 64)
+				sc = math.Float64bits(h.Score)
+				keys[x] = p.bzs(args[x])
+			case s.Kind == "field" && (s.Type == 2 || s.Type == 3):
+				args[x] = h.DecodedSort[x]
+			default:
+				args[x] = h.Sort[x]
+			}
+		}
+		return args, cf.App("Build_after_doc", lst("bytes", keys, func(t cf.T) cf.T { return t }), p.hx(sc))
+	}
+	var probes []cf.T
+	nAfter, nBefore, nFrom, deepBack := 0, 0, 0, 0
+	addProbe := func(size int, req cf.T, o *obs) {
+		var ids []string
+		for _, h := range o.hits {
+			ids = append(ids, h.ID)
+		}
+		probes = append(probes, cf.App("Build_probe", cf.Nat(size), req, obsT(p, ids, o.total, o.max)))
+	}
+	from := func(size, from int) *obs {
+		o := run(top, size, from, nil, nil)
+		if o != nil {
+			addProbe(size, cf.App("QFrom", cf.Nat(from)), o)
+			nFrom++
+		}
+		return o
+	}
+	after := func(size int, h *search.DocumentMatch) *obs {
+		args, t := anchor(h)
+		o := run(top, size, 0, args, nil)
+		if o != nil {
+			addProbe(size, cf.App("QAfter", cf.Nat(pos[h.ID]), t), o)
+			nAfter++
+		}
+		return o
+	}
+	before := func(size int, h *search.DocumentMatch) *obs {
+		args, t := anchor(h)
+		o := run(top, size, 0, nil, args)
+		if o != nil {
+			addProbe(size, cf.App("QBefore", cf.Nat(pos[h.ID]), t), o)
+			nBefore++
+			if pos[h.ID] > 2*size {
+				deepBack++
+			}
+		}
+		return o
+	}
+	addProbe(all, cf.App("QFrom", cf.Nat(0)), full)
+	for _, size := range in.Sizes {
+		if size < 1 || direct != nil {
+			continue
+		}
+		limit := 2*n + 4 // a correct walk needs n/size+1 steps; never loop on a page that does not advance
+		// From/Size pages tiling the listing
+		for f, steps := 0, 0; f <= n && steps < limit && direct == nil; f, steps = f+size, steps+1 {
+			from(size, f)
+		}
+		// forward to the end with SearchAfter from the last hit of each page ...
+		pg := from(size, 0)
+		var lastPage *obs
+		for steps := 0; pg != nil && len(pg.hits) > 0 && steps < limit; steps++ {
+			lastPage = pg
+			pg = after(size, pg.hits[len(pg.hits)-1])
+		}
+		// ... and all the way back with SearchBefore from the first hit of each page
+		if direct == nil && lastPage != nil {
+			pg = lastPage
+			for steps := 0; pg != nil && len(pg.hits) > 0 && steps < limit; steps++ {
+				pg = before(size, pg.hits[0])
+			}
+		}
+	}
+	if direct != nil {
+		return vh.Result{Direct: direct}
+	}
+	kind := "walk:" + in.Tree
+	hist := []string{kind, fmt.Sprintf("walk:members=%d", nl), fmt.Sprintf("walk:keys=%d", len(in.Sort))}
+	for _, sz := range in.Sizes {
+		hist = append(hist, fmt.Sprintf("walk:size=%d", sz))
+	}
+	for i := 0; i < nFrom; i++ {
+		hist = append(hist, "walk:probe-from")
+	}
+	for i := 0; i < nAfter; i++ {
+		hist = append(hist, "walk:probe-after")
+	}
+	for i := 0; i < nBefore; i++ {
+		hist = append(hist, "walk:probe-before")
+	}
+	for i := 0; i < deepBack; i++ {
+		hist = append(hist, "walk:probe-before-beyond-2-pages")
+	}
+	probesT := lst("probe", probes, func(t cf.T) cf.T { return t })
+	var term cf.T
+	if isAlias {
+		term = cf.App("CAlias", sortT(in.Sort), lst("(list amatch)", childT, func(t cf.T) cf.T { return t }), probesT)
+	} else {
+		term = cf.App("CApi", sortT(in.Sort), childT[0], probesT)
+	}
+	return vh.Result{Term: p.wrap(term), Nontrivial: n >= 3 && deepBack > 0, Hist: hist}
+}
+
 func exec(in In) vh.Result {
 	switch in.Kind {
 	case "coll":
 		return execColl(in)
 	case "api":
 		return execAPI(in)
+	case "walk":
+		return execWalk(in)
 	}
 	return vh.Result{Skip: true}
 }
@@ -908,7 +1247,7 @@ func exec(in In) vh.Result {
 func main() {
 	vh.Main(vh.Config{
 		Property:  "C06",
-		Imports:   []string{"Common.Bytes", "Collect.TopN", "Collect.TopNCorr"},
+		Imports:   []string{"Common.Bytes", "Collect.TopN", "Collect.TopNAliasModel", "Collect.TopNCorr"},
 		CaseType:  "TopNCorr.case",
 		CheckFn:   "TopNCorr.check",
 		ExplainFn: "TopNCorr.explain",
@@ -919,8 +1258,12 @@ func main() {
 			"Size=all listing (in HitNumber order, with hit.Sort keys) is the match stream, probes = From/Size tilings, SearchAfter walks, SearchBefore walks, random anchors " +
 			"(anchor values sent back as a client would: raw Sort for untyped keys, DecodedSort for number-typed keys, the score formatted exactly); " +
 			"a few dedicated cases (class search-after-missing-typed-value) anchor at hits whose number-typed sort value is missing; " +
+			"walk cases: the documents spread over 1-4 member indexes (scorch / upsidedown mixed, random or skewed partition) searched as one plain index, an alias over one index, " +
+			"a flat alias over 2-4 indexes or a nested alias tree; for each of 2-4 page sizes (always 1 or 2, sizes not dividing the number of documents, sometimes > 10) the From/Size tiling, " +
+			"the SearchAfter walk from the first page to the end and the SearchBefore walk from the last page all the way back, every page judged against the slice of all members' matches " +
+			"(the members' own Size=all listings) in the requested order; " +
 			"thorough tier adds every arrival order of <=6 matches over 3 score values for every size, skip <= 4; " +
-			"non-trivial: collector cases where something is evicted and something returned, API cases with >=3 hits and at least one SearchAfter/SearchBefore probe",
+			"non-trivial: collector cases where something is evicted and something returned, API cases with >=3 hits and at least one SearchAfter/SearchBefore probe, walk cases with a SearchBefore probe anchored beyond the second page",
 		ShardSize: 100,
 		Preamble:  "From Coq Require Import Uint63.\n",
 	}, gen, exec)
